@@ -302,9 +302,15 @@ func checkLateResults(w *World, r *Report, rule string) {
 		}
 		off := offs[0]
 		bad := ""
+		bypass := ""
 		saw := false
 		w.enumPaths(fn, off.opts(w), func(p *Path) {
 			k := p.armTaken(off.Sel)
+			if k < 0 && c.want != nil && p.Exit == "return" {
+				// a documented late result: no return may bypass the offer (a shortcut in front of the
+				// select answers a call made after shutdown with something else than the late result)
+				bypass = "a path returns without offering the request to the actor (" + pathExitPos(w, p) + "): a call after shutdown is not answered with the documented late result"
+			}
 			if k < 0 || k == off.State {
 				return
 			}
@@ -334,6 +340,9 @@ func checkLateResults(w *World, r *Report, rule string) {
 			}
 		})
 		r.Check(bad == "" && saw, rule, "API:"+c.name+" liveness arm", w.pos(fn.Pos()), "returns the documented late result without effect", orStr(bad, "no liveness arm found"))
+		if c.want != nil {
+			r.Check(bypass == "", rule+"b", "API:"+c.name+" no bypass", w.pos(fn.Pos()), "every returning path passes through the offer to the actor", bypass)
+		}
 	}
 }
 
@@ -1115,4 +1124,17 @@ func checkModuloIndex(w *World, r *Report, rule string) {
 		}
 	}
 	r.Floor(rule, 3, "bar tip frames, spinner filler frames, spinner decorator frames")
+}
+
+// pathExitPos: position of the last root-frame block of a path (where it returns).
+func pathExitPos(w *World, p *Path) string {
+	if n := len(p.Blocks); n > 0 {
+		b := p.Blocks[n-1]
+		for i := len(b.Instrs) - 1; i >= 0; i-- {
+			if pos := b.Instrs[i].Pos(); pos.IsValid() {
+				return w.pos(pos)
+			}
+		}
+	}
+	return "?"
 }
